@@ -204,6 +204,23 @@ def build() -> Check:
         ck.ob("R4.timestamp-conversion-preserves-instant", fn_construct(fn), not badc, "; ".join(badc) or f"{len(calls)} call(s)")
         scale = {n.value for n in ast.walk(fn.node) if isinstance(n, ast.Constant) and isinstance(n.value, (int, float)) and n.value not in (0, 1)}
         ck.ob("R4.timestamp-scale", fn_construct(fn), bool(scale & {1000, 1000.0, 0.001}), f"scaling constants {sorted(scale)}: the seconds<->milliseconds factor 1000 does not appear")
+    # R5 decoding has no side effect on the wire form: a reader never stores into (any level of) the dictionary it was given - the same event /
+    # history page is decoded again, compared with the encoder's output, or serialised again
+    from sa.tables import input_mutations
+    fx_ = ast.parse("import copy\nclass X:\n    @classmethod\n    def from_json_dict(cls, data):\n        c = copy.copy(data)\n        if (s := c.get('S')) and (ms := s.get('T')):\n            s['T'] = conv(ms)\n        return cls.from_dict(c)\n").body[1].body[0]
+
+    class _F:  # minimal FuncInfo stand-in for the positive example
+        node = fx_
+    if not input_mutations(_F):
+        raise AnalysisError("input-mutation rule does not fire on its positive example")
+    n_readers = 0
+    for fi in prog.functions.values():
+        if isinstance(fi.node, ast.Lambda) or fi.cls is None or fi.module.short() not in ("lambda_service", "execution") or not fi.name.startswith("from_"):
+            continue
+        n_readers += 1
+        muts = input_mutations(fi)
+        ck.ob("R5.reader-does-not-mutate-its-input", fn_construct(fi), not muts, "; ".join(f"line {ln}: {why}" for ln, why in muts[:3]))
+    ck.floor("reader_functions", n_readers, 15)
     return ck
 
 
